@@ -314,6 +314,8 @@ class FFTMTF:
                 of rays, wavelength, and F-number.
         """
         Q = self.grid_size / self.num_rays
-        dx = Q / (self.wavelength * self.FNO)
+        # frequency step of a grid_size-point transform of the PSF, whose
+        # pixel is wavelength * FNO / Q (wavelength in microns -> cycles/mm)
+        dx = Q / (self.grid_size * self.wavelength * 1e-3 * self.FNO)
 
         return dx
